@@ -416,10 +416,13 @@ class Basic(Handler):
 
         :rtype: collections.Iterable
         """
-        frames = int(math.ceil(len(body) / float(self._max_frame_size)))
+        # The negotiated frame size includes the 7 byte frame header and
+        # the frame end byte.
+        max_body_size = self._max_frame_size - 8
+        frames = int(math.ceil(len(body) / float(max_body_size)))
         for offset in compatibility.RANGE(0, frames):
-            start_frame = self._max_frame_size * offset
-            end_frame = start_frame + self._max_frame_size
+            start_frame = max_body_size * offset
+            end_frame = start_frame + max_body_size
             body_len = len(body)
             if end_frame > body_len:
                 end_frame = body_len
